@@ -29,11 +29,11 @@ func c10Root(c *c10Case, log *Log) (tally.Scope, tally.TestScope) {
 		return root, nil
 	case 1:
 		root, _ := tally.NewRootScope(tally.ScopeOptions{Prefix: string(c.Prefix), Tags: tagsOf(c.Tags),
-			CachedReporter: &RecCached{L: log, Caps: caps{true, true}}, OmitCardinalityMetrics: true, SanitizeOptions: c.San.opts()}, 0)
+			CachedReporter: &c09PanicAlloc{RecCached: &RecCached{L: log, Caps: caps{true, true}}}, OmitCardinalityMetrics: true, SanitizeOptions: c.San.opts()}, 0)
 		return root, nil
 	case 3:
 		root, _ := tally.NewRootScope(tally.ScopeOptions{Prefix: string(c.Prefix), Tags: tagsOf(c.Tags),
-			Reporter: &RecReporter{L: log, Caps: caps{true, true}}, CachedReporter: &RecCached{L: log, Caps: caps{true, true}},
+			Reporter: &RecReporter{L: log, Caps: caps{true, true}}, CachedReporter: &c09PanicAlloc{RecCached: &RecCached{L: log, Caps: caps{true, true}}},
 			OmitCardinalityMetrics: true, SanitizeOptions: c.San.opts()}, 0)
 		return root, nil
 	}
@@ -106,6 +106,9 @@ func c10Conc(c *c10Case) (lin []c10Op, in []Ev, obs []Ev, fail string) {
 			}
 		} else {
 			delta = c10Snapshot(ts)
+			if c10SnapshotMisfiled != "" {
+				failf("%s", c10SnapshotMisfiled)
+			}
 			now := map[string][]int64{}
 			for _, e := range delta {
 				if e.K == 31 {
